@@ -160,7 +160,7 @@ def main(argv):
 
     # ---- native bounded stand-ins (small-scope enumeration on the real code) ---------------------------
     if cfg.get("native"):
-        nres = native_run.run(cfg["native"], REPO, os.path.join(work, "native"))
+        nres = native_run.run(cfg["native"], REPO, os.path.join(work, "native"), tier=tier)
         cmds.append(nres["cmd"])
         functions_under_contract.extend(nres["functions"])
         for u in nres["undecided"]:
